@@ -148,8 +148,14 @@ class CTMCUniformGrid(CTMCGrid):
         l, r = compute_truncation(
             model=model, h=h, truncation_probability=truncation_probability
         )
-        nb_of_points_left = int(abs(l) / h)
-        nb_of_points_right = int(r / h)
+        if not l < -h < h < r:
+            raise ValueError(
+                "the spatial step h reaches the truncation bounds: choose a smaller value for h or a greater value "
+                "for the truncation_probability"
+            )
+        # at least the bound and -h (resp. +h) on each semi-axis
+        nb_of_points_left = max(int(abs(l) / h), 2)
+        nb_of_points_right = max(int(r / h), 2)
         if nb_of_points_left + nb_of_points_right > 1e8:
             raise ValueError(
                 "the number of points is greater than 10M, choose a smaller value for the "
@@ -275,6 +281,11 @@ class CTMCGridGeometric(CTMCGrid):
         l, r = compute_truncation(
             model=model, h=h, truncation_probability=truncation_probability
         )
+        if not l < -h < h < r:
+            raise ValueError(
+                "the spatial step h reaches the truncation bounds: choose a smaller value for h or a greater value "
+                "for the truncation_probability"
+            )
         axis_right = np.geomspace(start=h, stop=r, num=nb_of_points_on_each_side)
         axis_left = np.geomspace(start=l, stop=-h, num=nb_of_points_on_each_side)
         axis = np.concatenate((axis_left, [0.0], axis_right))
@@ -301,6 +312,10 @@ class CTMCGridGeometric(CTMCGrid):
         if nb_of_points_on_each_side < 2:
             raise ValueError("expected nb_of_points_on_each_side >= 2")
         l, r = truncations
+        if not l < -h < h < r:
+            raise ValueError(
+                "the spatial step h reaches the truncation bounds: expected l < -h < h < r"
+            )
         axis_right = np.geomspace(start=h, stop=r, num=nb_of_points_on_each_side)
         axis_left = np.geomspace(start=l, stop=-h, num=nb_of_points_on_each_side)
         axis = np.concatenate((axis_left, [0.0], axis_right))
